@@ -76,7 +76,7 @@ def run(ctx):
     agg = sx.run_catalogue(ctx, worker, tier='quick' if ctx.quick else 'thorough')
     ctx.guard('views checked', ctx.counters.get('views_checked', 0), 1000)
     ctx.cov['per_model'] = agg['per_model']
-    ctx.cov['bounds'] = 'every distinct state reachable by histories of depth <= %s from every fixture; view read without and with a preceding flush' % ('2' if ctx.quick else '3 (quick-catalogue models; 2 for the option variants that only the thorough catalogue adds)')
+    ctx.cov['bounds'] = 'every distinct state reachable by histories of depth <= %s from every fixture; view read without and with a preceding flush' % ('2' if ctx.quick else '3 (one model per relationship kind plus casc3 and mix3; 2 for the option variants)')
     ctx.assume('SQLite only; two objects per entity + one creatable')
     return dict(states=agg['states'], transitions=agg['transitions'],
                 traces_validated_against_impl=agg['executions'] + ctx.counters.get('views_checked', 0))
